@@ -77,7 +77,11 @@ def check(idx: Index, rep: Report, tier: str) -> str:
             t = unparse(d.node)
             raw_use = "(lhs, rhs) = args" in t or re.search(r"args\[[01]\] (<<|>>|//|%|\*|-|\+)", t)
             conv = len(re.findall(rf"{want}\(args\[[01]\]|{want}\((lhs|rhs),", t))
-            if conv >= 2 and not ("(lhs, rhs) = args" in t and conv < 2):
+            # a shift amount is not a signed quantity (amounts >= width are poison): only the shifted value needs the conversion
+            need = 1 if opname.startswith("ShR") else 2
+            if need == 1:
+                conv = len(re.findall(rf"{want}\(args\[0\]|{want}\(lhs,", t))
+            if conv >= need:
                 r2.ok(inst, f"{d.loc} both operands through {want}")
             else:
                 r2.fail(inst, Finding("C15.R2", d.fq, f"operands-not-normalised:{opname}", f"{d.name} ({opname}) uses its operands without {want}(…, width): a non-canonical representative (e.g. 200 for the i8 value -56) gives the wrong {'signed' if want == 'to_signed' else 'unsigned'} result", d.loc))
